@@ -3,7 +3,7 @@
 TLC: Funnel.tla - (1) EscapesOnlyIDE / RawNeverLaundered over every (exception class, raise site): what escapes the
 layered handlers is an InvalidDefinitionError with a path exactly for origins of the InvalidDefinition family, so the
 property is an obligation on every raise site; (2) the mutation machine enumerates every single (and, sampled, double)
-token mutation - delete, duplicate, swap, replace by any of 111 vocabulary entries - of three seed definitions.
+token mutation - delete, duplicate, swap, replace by any of 116 vocabulary entries - of three seed definitions.
 Binding A: every mutated text is read; the outcome must be a model or an InvalidDefinitionError whose path is the
 mutated file (or a dependency).  Seeded character noise, control characters, file-name shapes and duplicate
 name+version files are added by the harness.
@@ -148,11 +148,12 @@ def worker(arg):
     text = join(toks)
     status, res, frec = read_text(text, want_trace=True)
     bad = classify(status, res, "A.1.0.dsdl")
-    if not bad and status == "err" and fs.BAD_DEP in toks:
+    used = [t_ for t_ in toks if t_ in fs.BAD_DEPS]
+    if not bad and status == "err" and len(set(used)) == 1:
         # the mutation refers to a dependency that is itself faulty: if the same text with a sound dependency in its place is
         # accepted, the dependency's file is the offending one and the error must name it
-        status2, _res2 = read_text(join([("ns.Dep.1.0" if t_ == fs.BAD_DEP else t_) for t_ in toks]))
-        if status2 == "ok" and not str(res.path).endswith("Bad.1.0.dsdl"):
+        status2, _res2 = read_text(join([("ns.Dep.1.0" if t_ in fs.BAD_DEPS else t_) for t_ in toks]))
+        if status2 == "ok" and not str(res.path).endswith("/" + fs.BAD_DEPS[used[0]]):
             bad = (("the error does not name the offending file (the faulty dependency)", str(res.path)[-40:], type(res).__name__), None)
     r = {"nt": status == "err", "key": core.jhash(tlaval.to_json(c)), "skipped": status == "skipped", "funnel": frec, "text": text}
     if bad:
@@ -340,9 +341,9 @@ def run_mut(ctx, cfg, mod, collect):
     c02.consume(ctx, collect(core.pmap(worker, [(b, mod) for b in blocks], chunksize=100)), cfg)
 
 def run(ctx):
-    assert [len(s) for s in fs.SEEDS] == [40, 35, 29] and len(fs.VOCAB) == 111, "spec/MC_Funnel.tla and Funnel.tla mirror these numbers"
+    assert [len(s) for s in fs.SEEDS] == [40, 35, 29] and len(fs.VOCAB) == 116, "spec/MC_Funnel.tla and Funnel.tla mirror these numbers"
     ctx.rule = ("TLC checks the propagation model over every (class, raise site) and enumerates every single token mutation "
-                "(delete / duplicate / swap / replace by each of 111 vocabulary entries incl. every operator, bracket, "
+                "(delete / duplicate / swap / replace by each of 116 vocabulary entries incl. every operator, bracket, "
                 "directive, literal form and targeted corner expression) of three seed definitions, and (sampled) double "
                 "mutations; each text is read: model or InvalidDefinitionError with a path. Every state of Expr.tla's operator x operand-kind grid "
                 "(17 binary, 3 unary, 4 attribute operators x 20 operand kinds incl. data types and sets of sets / types) is "
